@@ -1,7 +1,69 @@
-From Coq Require Import List ZArith Bool.
+(** C26 — Loaded pytket circuits: the INDEX ALGEBRA of the wrapper that guppylang builds around
+    the converted circuit (model of compile_outer / _signature_from_circuit, tied to the real code
+    by props/C26).  Not claimed: what the converted circuit itself does (tket), pytket's ordering of
+    registers and symbols.  Parameter names are abstracted to integers (only their order matters). *)
+From Coq Require Import List ZArith Bool Arith.
 From V.C26 Require Import Model Proofs.
 Import ListNotations.
+
+(* Symbolic parameters are bound in lexicographic name order: whatever order the converted circuit
+   lists its parameters in, the j-th parameter of the circuit receives the user's k-th angle where
+   k = number of parameter names smaller than its own (i.e. the user's k-th argument reaches the
+   parameter with the k-th smallest name). *)
 Theorem perm_correct : forall c j, NoDup c.(meta) -> j < n_params c ->
   nth j (param_wires c) Missing = InP (count_lt (nth j c.(meta) 0%Z) c.(meta)).
 Proof. exact perm_correct_lemma. Qed.
 Print Assumptions perm_correct.
+
+Example perm_correct_instance :
+  param_wires (mkCirc [2] [1] [30; 10; 20]%Z) = [InP 2; InP 0; InP 1] /\ NoDup [30; 10; 20]%Z.
+Proof. split; [reflexivity | repeat constructor; simpl; intuition discriminate]. Qed.
+
+(* The call receives: the qubits (register by register in q_registers order, elements in index order,
+   when arrays are used; the qubit arguments in order otherwise), one constant false per bit, the parameters. *)
+Theorem call_wiring : forall arrays c,
+  call_args arrays c = qubit_wires arrays c ++ repeat CFalse (n_bits c) ++ param_wires c /\
+  qubit_wires false c = map InQ (seq 0 (n_qubits c)) /\
+  qubit_wires true c = concat (map (fun p => map (InQArr (fst p)) (seq 0 (snd p)))
+                                   (combine (seq 0 (length c.(q_regs))) c.(q_regs))).
+Proof. intros. repeat split. apply reg_wires_concat. Qed.
+Print Assumptions call_wiring.
+
+(* Outputs: the call returns qubits then bits; the wrapper returns bits then qubits ... *)
+Theorem outputs_bits_then_qubits : forall c,
+  rotated c = map Out (seq (n_qubits c) (n_bits c)) ++ map Out (seq 0 (n_qubits c)).
+Proof. exact rotated_eq. Qed.
+Print Assumptions outputs_bits_then_qubits.
+
+(* ... re-packed, with arrays, into one array per classical register then one per qubit register,
+   each of its register's size, preserving the order. *)
+Theorem arrays_repacked : forall c,
+  concat (outputs true c) = rotated c /\ map (@length wire) (outputs true c) = c.(c_regs) ++ c.(q_regs) /\
+  concat (outputs false c) = rotated c.
+Proof.
+  intros c. unfold outputs. repeat split.
+  - apply chunks_concat. rewrite sum_app, rotated_length. reflexivity.
+  - apply chunks_lengths. rewrite sum_app, rotated_length. reflexivity.
+  - induction (rotated c); simpl; auto. f_equal. exact IHl.
+Qed.
+Print Assumptions arrays_repacked.
+
+(* The inferred signature offers one boolean per classical bit, one (borrowed) qubit per qubit and one
+   angle per symbolic parameter, with and without arrays. *)
+Theorem signature_counts : forall arrays c,
+  leaves is_bool (s_output (sig_of arrays c)) = n_bits c /\
+  leaves_in is_qubit (map fst (s_inputs (sig_of arrays c))) = n_qubits c /\
+  leaves_in is_angle (map fst (s_inputs (sig_of arrays c))) = n_params c /\
+  Forall (fun i => snd i = is_qubit (match fst i with GArr e _ => e | t => t end)) (s_inputs (sig_of arrays c)).
+Proof. intros. split; [apply bools_per_bit | apply qubits_per_qubit]. Qed.
+Print Assumptions signature_counts.
+
+(* A declared stub is accepted iff its signature equals the inferred one. *)
+Theorem stub_accepted_iff : forall arrays c stub, accepts arrays c stub = true <-> stub = sig_of arrays c.
+Proof. exact accepts_iff. Qed.
+Print Assumptions stub_accepted_iff.
+
+Example stub_rejected_instance :
+  accepts false (mkCirc [2] [1] []) (mkSig [(GQubit, true)] GBool) = false /\
+  accepts false (mkCirc [2] [1] []) (mkSig [(GQubit, true); (GQubit, true)] GBool) = true.
+Proof. split; reflexivity. Qed.
